@@ -674,7 +674,7 @@ func H_C17_abSlice() {
 	start := vC17IntArg("start", effect(0))
 	end := vC17IntArg("end", effect(1))
 	args := []Value{start, end}
-	endUndef := vNondetBool("end.undefined")
+	endUndef := vBound("ABSENT") == 1 && vNondetBool("end.undefined")
 	if endUndef {
 		vAssume(which != 1)
 		args[1] = _undefined
@@ -926,7 +926,7 @@ func H_C17_slice() {
 	start := vC17IntArg("start", effect(0))
 	end := vC17IntArg("end", effect(1))
 	args := []Value{start, end}
-	endUndef := vNondetBool("end.undefined")
+	endUndef := vBound("ABSENT") == 1 && vNondetBool("end.undefined")
 	if endUndef {
 		vAssume(which != 1)
 		args[1] = _undefined
